@@ -54,6 +54,7 @@ class Planner:
         self.dicts = []
         self.fam = cfg.get("families", {})
         self.poisoned = False
+        self.watch = []  # objects whose round trips are worth repeating after comparisons
 
     # ---------------------------------------------------------------- emission
     def new(self):
@@ -1613,6 +1614,103 @@ class Planner:
                                 pairs.append([a, b, tag + ":nested"])
         return pairs, pool
 
+    def component_rebuilds(self):
+        """Tensors re-assembled component by component from two equal-but-distinct
+        objects (as_vector([A1[0], A2[1]])): constructors that simplify by looking at
+        their operands meet operand tuples that a successful == re-points."""
+        r = self.rng
+        pairs, pool = [], []
+        for M in self.meshes[:2]:
+            scal = [c for c in M["coefs"] + M["consts"] if self.shape(c) == ()]
+            vec = [c for c in M["coefs"] + M["consts"] if len(self.shape(c)) == 1]
+            cands = []
+            if scal:
+                cands.append(("ufl.grad", r.choice(scal)))
+            if vec:
+                cands.append(("ufl.grad", r.choice(vec)))
+                cands.append(("operator.neg", r.choice(vec)))
+                cands.append(("2*", r.choice(vec)))
+            if not cands:
+                continue
+            fn, base = r.choice(cands)
+
+            def mk():
+                if fn == "2*":
+                    return self.call("operator.mul", 2, self.ref(base))
+                return self.call(fn, self.ref(base))
+
+            A1, A2 = mk(), mk()
+            if A1 is None or A2 is None:
+                continue
+            sh = self.shape(A1)
+            if not sh or sh[0] > 3:
+                continue
+            n = sh[0]
+            rest = [["slice"]] * (len(sh) - 1)
+            src = [r.choice([A1, A2]) for _ in range(n)]
+            if len(set(src)) == 1 and r.random() < 0.8:
+                src[r.randrange(n)] = A2 if src[0] == A1 else A1
+            comps = []
+            for k in range(n):
+                key = k if not rest else ["t", k] + rest
+                c = self.call("operator.getitem", self.ref(src[k]), key)
+                if c is None:
+                    break
+                comps.append(c)
+                other = A2 if src[k] == A1 else A1
+                c2 = self.call("operator.getitem", self.ref(other), key)
+                if c2 is not None:
+                    pairs.append([c, c2, "twin"])
+                    pool.append(c2)
+            if len(comps) != n:
+                continue
+            L = self.call("ufl.as_vector" if len(sh) == 1 else "ufl.as_tensor", [self.ref(c) for c in comps])
+            if L is None:
+                continue
+            pool += [A1, A2, L] + comps
+            self.watch.append(L)
+            pairs.append([A1, A2, "twin"])
+            for whole in (A1, A2):
+                pairs.append([L, whole, "rebuilt"])
+            w = self.call("ufl.dot", self.ref(L), self.ref(L))
+            if w is not None:
+                pool.append(w)
+        return pairs, pool
+
+    def failed_constructions(self):
+        """Constructor calls that UFL rejects, each followed by the valid call with equal
+        arguments (natural aborts inside the flyweight / interning constructors)."""
+        r = self.rng
+        pool = []
+        bad_good = [
+            (["ufl.classes.Zero", [["t", 7.0]]], ["ufl.classes.Zero", [["t", 7]]]),
+            (["ufl.classes.Zero", [["t", 2.0, 2]]], ["ufl.classes.Zero", [["t", 2, 2]]]),
+            (["ufl.zero", [5.0, 3]], ["ufl.zero", [5, 3]]),
+            (["ufl.classes.IntValue", [["c", 57.0, 0.0]]], ["ufl.classes.IntValue", [57]]),
+            (["ufl.classes.IntValue", ["x"]], ["ufl.classes.IntValue", [58]]),
+            (["ufl.classes.FixedIndex", [2.5]], ["ufl.classes.FixedIndex", [2]]),
+            (["ufl.classes.FixedIndex", ["a"]], ["ufl.classes.FixedIndex", [3]]),
+            (["ufl.classes.MultiIndex", [["t", 1, 2]]], None),
+            (["ufl.Identity", [2.0]], ["ufl.Identity", [2]]),
+            (["ufl.as_ufl", ["x"]], None),
+        ]
+        for bad, good in r.sample(bad_good, r.randint(2, 5)):
+            self.emit(["call", self.new(), bad[0], bad[1]], keep_failed=True)
+            if good is not None:
+                g = self.call(good[0], *good[1])
+                if g is not None and isinstance(self.node.slots.get(g), Expr):
+                    pool.append(g)
+                    try:
+                        scalar = self.shape(g) == ()
+                    except AttributeError:
+                        # the valid call handed out a half-built object: stop building on it
+                        break
+                    if scalar and r.random() < 0.5:
+                        w = self.call("ufl.as_vector", [self.ref(g), self.ref(g)])
+                        if w is not None:
+                            pool.append(w)
+        return pool
+
     def c13_program(self):
         r = self.rng
         self.cfg.setdefault("n_steps", r.randint(0, 5))
@@ -1636,6 +1734,12 @@ class Planner:
             bp, bpool = self.base_form_operators()
             pairs += bp
             pool += bpool
+        if r.random() < self.cfg.get("rebuild_p", 0.5):
+            cp, cpool = self.component_rebuilds()
+            pairs += cp
+            pool += cpool
+        if r.random() < self.cfg.get("failed_ctor_p", 0.35):
+            pool += self.failed_constructions()
         prod = self.producers()
         targets = [e for e in self.exprs if e in prod] + [f[0] for f in self.forms if f[0] in prod]
         for _ in range(self.cfg.get("n_twins") or r.randint(3, 10)):
@@ -1655,6 +1759,7 @@ class Planner:
         res["pairs"] = [p for p in pairs if p[0] in self.node.slots and p[1] in self.node.slots]
         res["kinds"] = {str(s_): ("form" if isinstance(self.obj(s_), BaseForm) else "expr") for s_ in pool}
         res["mesh_ops"] = [i for i, op in enumerate(self.ops) if op[0] == "call" and op[2] == "ufl.Mesh" and len(op) == 4]
+        res["watch"] = [w for w in self.watch if w in pool]
         return res
 
     def flat_form(self, M):
